@@ -372,16 +372,60 @@ var extras = []freeCall{
 	{Name: `Set("k",1)`, Apply: func(db, _ *gorm.DB, _ modelKind) *gorm.DB { return db.Set("k", 1) }},
 }
 
-// allCalls = alphabet + weakCalls + extras (lookup only; the full enumeration runs over alphabet)
-var allCalls = append(append(append([]freeCall{}, alphabet...), weakCalls...), extras...)
+// Blob / Kinds: named slice types (bytes, strings).
+type Blob []byte
+type Kind string
 
-var alphaIndex = func() map[string]int {
-	m := map[string]int{}
-	for i, a := range allCalls {
-		m[a.Name] = i
+// emptySlices: every empty slice / array form in every role. All of them are
+// condition-free (an empty key list). A representative subset sits in extras
+// (enumerated); the full product is drawn in the random part.
+var emptySlices = func() []freeCall {
+	forms := []struct {
+		name string
+		v    interface{}
+	}{
+		{`[]byte{}`, []byte{}}, {`[]byte(nil)`, []byte(nil)}, {`Blob{}`, Blob{}}, {`[]interface{}{}`, []interface{}{}},
+		{`[0]int{}`, [0]int{}}, {`[]int64{}`, []int64{}}, {`[]uint{}`, []uint{}}, {`[]Kind{}`, []Kind{}}, {`[]string(nil)`, []string(nil)},
 	}
-	return m
+	var out []freeCall
+	for _, verb := range []string{"Where", "Not", "Or"} {
+		for _, f := range forms {
+			verb, f := verb, f
+			out = append(out, freeCall{Name: verb + "(" + f.name + ")", EmptyCond: true, Apply: func(db, _ *gorm.DB, _ modelKind) *gorm.DB {
+				switch verb {
+				case "Where":
+					return db.Where(f.v)
+				case "Not":
+					return db.Not(f.v)
+				}
+				return db.Or(f.v)
+			}})
+		}
+	}
+	return out
 }()
+
+func init() {
+	// the enumerated representatives: each form once, Not([]byte{}) in addition
+	pick := map[string]bool{`Where([]byte{})`: true, `Not([]byte{})`: true, `Or([]byte(nil))`: true, `Not(Blob{})`: true, `Where([]interface{}{})`: true,
+		`Or([0]int{})`: true, `Not([]int64{})`: true, `Where([]uint{})`: true, `Or([]Kind{})`: true, `Not([]string(nil))`: true}
+	for _, e := range emptySlices {
+		if pick[e.Name] {
+			extras = append(extras, e)
+		}
+	}
+	allCalls = append(append(append(append([]freeCall{}, alphabet...), weakCalls...), extras...), emptySlices...)
+	for i, a := range allCalls {
+		if _, ok := alphaIndex[a.Name]; !ok {
+			alphaIndex[a.Name] = i
+		}
+	}
+}
+
+// allCalls = alphabet + weakCalls + extras + emptySlices (lookup only; the full enumeration runs over alphabet)
+var allCalls []freeCall
+
+var alphaIndex = map[string]int{} // filled by init (name -> index in allCalls)
 
 func isWeak(name string) bool {
 	i := alphaIndex[name]
@@ -442,6 +486,10 @@ var finishers = []finisher{
 		return db.Session(&gorm.Session{NewDB: true}).Table(m.Spec.Name).Update("mark", 7)
 	}},
 	// (Delete(T{}) - a non-pointer value - is refused with ErrInvalidValue before anything is built)
+	{Name: `Delete(&T{},[]byte{})`, Delete: true, Short: true, Run: func(db *gorm.DB, m modelKind, k int) *gorm.DB { return db.Delete(m.Keyed(k), []byte{}) }},
+	{Name: `Delete(&T{},[]interface{}{})`, Delete: true, Short: true, Run: func(db *gorm.DB, m modelKind, k int) *gorm.DB {
+		return db.Delete(m.Keyed(k), []interface{}{})
+	}},
 	{Name: `Delete(&T{},nil)`, Delete: true, Short: true, Run: func(db *gorm.DB, m modelKind, k int) *gorm.DB { return db.Delete(m.Keyed(k), nil) }},
 	{Name: `Delete(&T{},&T{})`, Delete: true, Short: true, Run: func(db *gorm.DB, m modelKind, k int) *gorm.DB {
 		return db.Delete(m.Keyed(k), m.Zero())
@@ -1072,7 +1120,7 @@ func TestC09Random(t *testing.T) {
 	rapid.Check(t, func(rt *rapid.T) {
 		x := cond.G(rt)
 		c := Case{Model: modelNames[x.N(len(modelNames))], AGU: aguModes[x.N(3)], Fin: finishers[x.N(len(finishers))].Name}
-		pool := append(append([]freeCall{}, alphabet...), extras...)
+		pool := append(append(append([]freeCall{}, alphabet...), extras...), emptySlices...)
 		seenUnscoped := false
 		for k := 3 + x.N(5); k > 0; k-- {
 			name := pool[x.N(len(pool))].Name
